@@ -162,6 +162,15 @@ type walkOpts struct {
 	m        modes
 	fsExec   bool // filesystem preserves executability (independent probe)
 	patterns bool // ignore pattern "ig-*" active
+	// faulted maps root-relative paths of regular files to what a fault
+	// injected during their hashing makes of them: "problem" (a read failed:
+	// "unreadable content ... as problems") or "any" (the file was modified
+	// while being read; the statement does not say what it becomes).
+	faulted map[string]string
+	// skipWalkCounts drops the comparison of the counters with the walk's
+	// totals (used with "any" entries, whose kind the walk cannot know); the
+	// recount of the snapshot's own content is still compared.
+	skipWalkCounts bool
 }
 
 // walk describes abs (root-relative rel) as the property says a snapshot must.
@@ -176,6 +185,9 @@ func walk(abs, rel string, o walkOpts, c *xcounts) (*xnode, error) {
 		if rel != "" && (strings.HasPrefix(name, noReadPrefix) || strings.HasPrefix(name, readFailPrefix)) {
 			// "unreadable content ... as problems"
 			return &xnode{Kind: "problem"}, nil
+		}
+		if f := o.faulted[rel]; f != "" {
+			return &xnode{Kind: f}, nil
 		}
 		data, err := os.ReadFile(abs)
 		if err != nil {
@@ -307,6 +319,9 @@ func diffEntry(rel string, want *xnode, got *core.Entry) string {
 	if got == nil {
 		return fmt.Sprintf("%s: on disk (%s) but missing from the snapshot", at, want.Kind)
 	}
+	if want.Kind == "any" {
+		return ""
+	}
 	if want.Kind == "unsync" {
 		if k := kindName(got); k != "problem" && k != "untracked" {
 			return fmt.Sprintf("%s: snapshot kind %s, expected problematic or untracked (non-portable link)", at, k)
@@ -404,6 +419,9 @@ func checkSnapshot(root string, snap *core.Snapshot, o walkOpts) string {
 	if snap.Directories != cc.Dirs || snap.Files != cc.Files || snap.SymbolicLinks != cc.Links {
 		return fmt.Sprintf("counters dirs/files/links %d/%d/%d do not match the snapshot's own content %d/%d/%d",
 			snap.Directories, snap.Files, snap.SymbolicLinks, cc.Dirs, cc.Files, cc.Links)
+	}
+	if o.skipWalkCounts {
+		return ""
 	}
 	if snap.Directories != wc.Dirs || snap.Files != wc.Files || snap.SymbolicLinks != wc.Links || snap.TotalFileSize != wc.Bytes {
 		return fmt.Sprintf("counters dirs/files/links/bytes %d/%d/%d/%d, walk counted %d/%d/%d/%d",
